@@ -42,6 +42,7 @@ type Prog struct {
 	ghosts       []*ghostInfo
 	defHeapCache map[string][]heapRef
 	modulePath   string
+	reachCache   map[*ssa.Function]map[*ssa.Function]bool
 	implCache    map[string][]types.Type
 	loadSecs     float64
 	allocCache   map[*ssa.Function]map[string]types.Type
